@@ -218,6 +218,59 @@ func checkDiagnosticPositions(baseText, text string) error {
 	return nil
 }
 
+// checkDefinitionPositions: the position recorded for every terminal definition of an accepted specification names
+// the same token in every layout.
+func checkDefinitionPositions(baseText, text string) error {
+	ordinals := func(s string) ([]string, error) {
+		var sp *spec.Spec
+		var err error
+		if perr := rec.Guard(func() { sp, err = spec.Parse("t.ebnf", strings.NewReader(s)) }); perr != nil {
+			return nil, perr
+		}
+		if err != nil || sp == nil {
+			return nil, nil
+		}
+		toks, _, _ := scanner.Scan(s)
+		var out []string
+		for _, d := range sp.Definitions {
+			if d.Pos == nil {
+				out = append(out, fmt.Sprintf("%s:none", d.Terminal))
+				continue
+			}
+			ord, found := 0, -1
+			for _, tk := range toks {
+				if tk.Kind == ";" {
+					continue
+				}
+				if tk.Line == d.Pos.Line && tk.Col == d.Pos.Column && tk.Off == d.Pos.Offset {
+					found = ord
+					if tk.Kind != "TOKEN" || tk.Lexeme != string(d.Terminal) {
+						// the definition of a declared token is recorded where its declaration starts (its name), whatever
+						// stands between the name, the '=' and the value
+						return nil, fmt.Errorf("the definition of %s is recorded at %d:%d, where the %s %q stands, not at the name of its declaration\ntext:\n%s", d.Terminal, tk.Line, tk.Col, tk.Kind, tk.Lexeme, s)
+					}
+				}
+				ord++
+			}
+			out = append(out, fmt.Sprintf("%s:%d", d.Terminal, found))
+		}
+		return out, nil
+	}
+	want, err := ordinals(baseText)
+	if err != nil || want == nil {
+		return err
+	}
+	got, err := ordinals(text)
+	if err != nil {
+		return err
+	}
+	rec.Count("definition_positions_compared", len(want))
+	if fmt.Sprint(want) != fmt.Sprint(got) {
+		return fmt.Errorf("the positions recorded for the definitions name other tokens after re-laying out the text (terminal:token ordinal, -1 = no token starts there): %v in the plain layout, %v in this layout", want, got)
+	}
+	return nil
+}
+
 // seedDefect makes a model ill-formed in one of the documented ways (the result only has to be the same in every layout).
 func seedDefect(t *rapid.T, m *ref.SpecModel) string {
 	var start *ref.Decl
@@ -254,8 +307,13 @@ func seedDefect(t *rapid.T, m *ref.SpecModel) string {
 	case "undefined_rule":
 		add(&ref.RHS{K: "nt", Name: "nowhere"})
 	case "token_twice":
-		insert(&ref.Decl{Kind: "token", Name: "TWICE", TokKind: "string", Text: "one", Semi: true})
-		insert(&ref.Decl{Kind: "token", Name: "TWICE", TokKind: "regex", Text: "tw+o", Semi: true})
+		if rapid.Bool().Draw(t, "predefinedTwice") {
+			insert(&ref.Decl{Kind: "token", Name: "TWICE", TokKind: "predef", Text: "$ID", Semi: true})
+			insert(&ref.Decl{Kind: "token", Name: "TWICE", TokKind: "predef", Text: "$NUMBER", Semi: true})
+		} else {
+			insert(&ref.Decl{Kind: "token", Name: "TWICE", TokKind: "string", Text: "one", Semi: true})
+			insert(&ref.Decl{Kind: "token", Name: "TWICE", TokKind: "regex", Text: "tw+o", Semi: true})
+		}
 		add(&ref.RHS{K: "tok", Name: "TWICE"})
 	case "same_value":
 		insert(&ref.Decl{Kind: "token", Name: "SAME", TokKind: "string", Text: "a", Semi: true})
@@ -341,6 +399,9 @@ func runRendering(t tb, m *ref.SpecModel, baseText, baseSig string, toks []ref.T
 	if err == nil && strings.HasPrefix(baseSig, "ERROR") {
 		err = checkDiagnosticPositions(baseText, text)
 	}
+	if err == nil && !strings.HasPrefix(baseSig, "ERROR") && baseText != "" {
+		err = checkDefinitionPositions(baseText, text)
+	}
 	if err != nil {
 		rec.Fail(t, "rendering", input{Model: m, Base: baseText, Text: text, Pad: pad}, "%v\n(text of %d bytes, padding %d)", err, len(text), pad)
 	}
@@ -399,7 +460,7 @@ func TestLayoutsAndPaddings(t *testing.T) {
 		_, placed := ref.Render(toks, seps)
 		for k := 0; k < 3; k++ {
 			i := rapid.IntRange(0, len(toks)-1).Draw(t, "token")
-			b := rapid.SampledFrom([]int{4096, 8192, 12288}).Draw(t, "boundary")
+			b := rapid.SampledFrom([]int{4096, 8192, 12288, 4096, 8192, 2048, 6144, 1024}).Draw(t, "boundary")
 			delta := rapid.IntRange(-2, 2).Draw(t, "delta")
 			anchor := rapid.SampledFrom([]string{"first", "last", "following"}).Draw(t, "anchor")
 			at := placed[i].Off
